@@ -11,7 +11,7 @@ open Ggql Ggql.Driver
 def pinnedTables : Tables :=
   { skip := Pinned.skipTable,
     valueTbl := { charMap := Pinned.charMap, numMap := Pinned.numMap, spaceClass := Pinned.spaceClass, tokenClass := Pinned.tokenClass,
-                  numClass := Pinned.numClass, escapes := Pinned.escapeTable, unescapes := Pinned.unescapeTable, terminators := Pinned.numberTerminators }, locks := Pinned.lockTable,
+                  numClass := Pinned.numClass, escapes := Pinned.escapeTable, unescapes := Pinned.unescapeTable, terminators := Pinned.numberTerminators, jsonKeysEscaped := Pinned.jsonKeysEscaped }, locks := Pinned.lockTable,
     outInt := Pinned.coerceOutInt, inInt := Pinned.coerceInInt,
     outInt64 := Pinned.coerceOutInt64, inInt64 := Pinned.coerceInInt64,
     outFloat := Pinned.coerceOutFloat, inFloat := Pinned.coerceInFloat,
